@@ -1,1 +1,424 @@
-fn main() { println!("MACHINERY-ERROR check not built yet"); std::process::exit(2); }
+//! C15 — incremental fitting replays to the same model as batch fitting / its recurrence.
+//! Explicit-state exploration (DESIGN.md §4 C15) of batch histories of the four incremental
+//! learners of linfa: Gaussian / multinomial naive Bayes (every composition of the rows of a
+//! dataset into ordered non-empty batches), mini-batch k-means and FTRL (every batch sequence up
+//! to a length bound from a pool of tiny batches). Every transition is one real `fit_with` call,
+//! stepped in lock-step with an own reference (textbook estimates / running-mean recurrence /
+//! per-coordinate FTRL-proximal recurrence) written with plain Vec<f64> loops.
+
+mod common;
+mod ftrl;
+mod km;
+mod nb;
+
+use common::Out;
+use ftrl::FtrlCase;
+use km::KmCase;
+use lvmc_core::enumerate as en;
+use lvmc_core::{json, par_sweep, Ctx, Level, Value, Violation};
+use nb::NbCase;
+use serde::{Deserialize, Serialize};
+use std::collections::BTreeMap;
+use std::sync::atomic::{AtomicU64, Ordering};
+use std::sync::Mutex;
+
+#[derive(Clone, Debug, Serialize, Deserialize)]
+#[serde(tag = "family")]
+enum Case {
+    #[serde(rename = "nb")]
+    Nb(NbCase),
+    #[serde(rename = "kmeans")]
+    Km(KmCase),
+    #[serde(rename = "ftrl")]
+    Ftrl(FtrlCase),
+}
+
+fn run_case(c: &Case, out: &mut Out) {
+    match c {
+        Case::Nb(c) => nb::run_nb(c, out),
+        Case::Km(c) => km::run_km(c, out),
+        Case::Ftrl(c) => ftrl::run_ftrl(c, out),
+    }
+}
+
+fn replay_value(v: &Value) -> Vec<Violation> {
+    let c: Case = match serde_json::from_value(v.clone()) {
+        Ok(c) => c,
+        Err(e) => {
+            println!("MACHINERY-ERROR replay case does not parse: {}", e);
+            std::process::exit(2);
+        }
+    };
+    let mut out = Out::default();
+    run_case(&c, &mut out);
+    // keep what belongs to the recorded history and operation
+    let hist = v.get("only_history").cloned();
+    let op = v.get("at").and_then(|a| a.get("op")).cloned();
+    let query = v.get("at").and_then(|a| a.get("query")).cloned();
+    out.viols
+        .into_iter()
+        .filter(|x| {
+            (hist.is_none() || x.case.get("only_history").cloned() == hist)
+                && (op.is_none() || x.case.get("at").and_then(|a| a.get("op")).cloned() == op)
+                && (query.is_none() || x.case.get("at").and_then(|a| a.get("query")).cloned() == query)
+        })
+        .collect()
+}
+
+// ------------------------------------------------------------------------------------------------
+// enumeration
+// ------------------------------------------------------------------------------------------------
+
+/// One naive-Bayes work item: a multiset of (feature vector, label) symbols; expanded inside the
+/// sweep into row orders x model kinds x smoothing values.
+struct NbItem {
+    p: usize,
+    symbols: Vec<usize>,
+}
+
+/// symbol -> (x, y); symbols are numbered label-major, so a sorted multiset is sorted by label
+fn symbol(p: usize, s: usize) -> (Vec<f64>, usize) {
+    let nx = 4usize.pow(p as u32);
+    let y = s / nx;
+    let mut r = s % nx;
+    let mut x = vec![0.0; p];
+    for j in (0..p).rev() {
+        x[j] = (r % 4) as f64;
+        r /= 4;
+    }
+    (x, y)
+}
+
+fn row_orders(rows: &[(Vec<f64>, usize)], n_orders: usize) -> Vec<Vec<(Vec<f64>, usize)>> {
+    let mut out: Vec<Vec<(Vec<f64>, usize)>> = vec![rows.to_vec()];
+    if n_orders >= 2 {
+        // feature-major: classes interleave
+        let mut r = rows.to_vec();
+        r.sort_by(|a, b| a.0.partial_cmp(&b.0).unwrap().then(a.1.cmp(&b.1)));
+        out.push(r);
+    }
+    if n_orders >= 3 {
+        // riffle of the label-major order: first, last, second, last but one, ...
+        let n = rows.len();
+        let mut r = Vec::new();
+        let (mut lo, mut hi) = (0usize, n);
+        while lo < hi {
+            r.push(rows[lo].clone());
+            lo += 1;
+            if lo < hi {
+                hi -= 1;
+                r.push(rows[hi].clone());
+            }
+        }
+        out.push(r);
+    }
+    let mut ded: Vec<Vec<(Vec<f64>, usize)>> = Vec::new();
+    for o in out {
+        if !ded.contains(&o) {
+            ded.push(o);
+        }
+    }
+    ded
+}
+
+const GNB_SMOOTHING: [f64; 3] = [0.0, 1e-9, 1e-3];
+const MNB_ALPHA: [f64; 3] = [0.0, 0.5, 1.0];
+
+fn nb_cases_of(item: &NbItem, n_orders: usize) -> Vec<NbCase> {
+    let rows: Vec<(Vec<f64>, usize)> = item.symbols.iter().map(|&s| symbol(item.p, s)).collect();
+    let mut out = Vec::new();
+    for o in row_orders(&rows, n_orders) {
+        let x: Vec<Vec<f64>> = o.iter().map(|r| r.0.clone()).collect();
+        let y: Vec<usize> = o.iter().map(|r| r.1).collect();
+        for s in GNB_SMOOTHING {
+            out.push(NbCase { kind: "gaussian".into(), x: x.clone(), y: y.clone(), smoothing: s, only_history: None });
+        }
+        for s in MNB_ALPHA {
+            out.push(NbCase { kind: "multinomial".into(), x: x.clone(), y: y.clone(), smoothing: s, only_history: None });
+        }
+    }
+    out
+}
+
+fn km_cases(max_len: usize) -> Vec<KmCase> {
+    let j = |i: usize, k: usize| en::jitter(i, k);
+    let lattice2: Vec<Vec<Vec<f64>>> = vec![
+        vec![vec![0.0, 0.0], vec![2.0, 0.0]],
+        vec![vec![4.0, 4.0], vec![4.0, 2.0], vec![2.0, 4.0]],
+        vec![vec![1.0, 1.0]],
+        vec![vec![2.0, 2.0], vec![2.0, 2.0], vec![6.0, 0.0], vec![0.0, 0.0]],
+    ];
+    let mut cnt = 0usize;
+    let generic2: Vec<Vec<Vec<f64>>> = lattice2
+        .iter()
+        .map(|b| {
+            b.iter()
+                .map(|r| {
+                    cnt += 1;
+                    r.iter().enumerate().map(|(c, v)| v + j(cnt, c)).collect()
+                })
+                .collect()
+        })
+        .collect();
+    let line1: Vec<Vec<Vec<f64>>> = vec![
+        vec![vec![0.0], vec![1.0]],
+        vec![vec![5.0], vec![6.0], vec![7.0]],
+        vec![vec![3.0]],
+        vec![vec![0.0], vec![10.0], vec![10.0], vec![3.0]],
+    ];
+    let cube3: Vec<Vec<Vec<f64>>> = vec![
+        vec![vec![0.0, 0.0, 0.0], vec![1.0, 1.0, 1.0]],
+        vec![vec![5.0, 5.0, 0.0]],
+        vec![vec![1.0, 0.0, 0.0], vec![0.0, 1.0, 0.0], vec![0.0, 0.0, 1.0]],
+        vec![vec![4.0, 4.0, 4.0], vec![4.0, 4.0, 5.0]],
+    ];
+    // the first pool also exercises a tolerance that the very first shift hits exactly (2.0)
+    let pools: Vec<(&str, Vec<Vec<Vec<f64>>>, Vec<Vec<Vec<f64>>>)> = vec![
+        (
+            "lattice2d",
+            lattice2,
+            vec![
+                vec![vec![0.0, 0.0], vec![4.0, 4.0], vec![6.0, 0.0]],
+                vec![vec![1.0, 1.0], vec![1.0, 1.0], vec![3.0, 3.0]],
+                vec![vec![2.0, 1.0], vec![3.0, 3.0], vec![0.0, 2.0]],
+            ],
+        ),
+        (
+            "generic2d",
+            generic2,
+            vec![
+                vec![vec![0.1, -0.2], vec![4.2, 3.9], vec![6.3, 0.4]],
+                vec![vec![1.0, 1.0], vec![1.0, 1.0], vec![3.0, 3.0]],
+            ],
+        ),
+        ("line1d", line1, vec![vec![vec![0.0], vec![6.0], vec![10.0]], vec![vec![3.0], vec![3.0], vec![8.0]], vec![vec![-1.0], vec![1.0], vec![4.0]]]),
+        ("cube3d", cube3, vec![vec![vec![0.0, 0.0, 0.0], vec![4.0, 4.0, 4.0], vec![1.0, 0.0, 0.0]]]),
+    ];
+    let tolerances = vec![1e-4, 1.0, 2.0, 100.0];
+    let mut out = Vec::new();
+    for (name, pool, inits) in &pools {
+        for k in 1..=3usize {
+            for ic in inits {
+                out.push(KmCase {
+                    pool_name: name.to_string(),
+                    pool: pool.clone(),
+                    k,
+                    init: "precomputed".into(),
+                    init_centroids: ic[..k].to_vec(),
+                    seed: 0,
+                    n_runs: 1,
+                    tolerances: tolerances.clone(),
+                    max_len,
+                    only_history: None,
+                });
+            }
+            for init in ["kmeans++", "random"] {
+                for (seed, n_runs) in [(42u64, 1usize), (7, 3), (1234567, 10)] {
+                    out.push(KmCase {
+                        pool_name: name.to_string(),
+                        pool: pool.clone(),
+                        k,
+                        init: init.into(),
+                        init_centroids: vec![],
+                        seed,
+                        n_runs,
+                        tolerances: tolerances.clone(),
+                        max_len,
+                        only_history: None,
+                    });
+                }
+            }
+        }
+    }
+    out
+}
+
+fn ftrl_cases(max_len: usize) -> Vec<FtrlCase> {
+    let pool_x: Vec<Vec<Vec<f64>>> = vec![
+        vec![vec![1.0, 0.0, 0.0], vec![0.0, 1.0, 0.0]],
+        vec![vec![1.0, 1.0, 1.0]],
+        vec![vec![2.0, 0.0, 1.0], vec![0.0, 0.0, 0.0], vec![1.0, 3.0, 0.0]],
+        vec![vec![0.0, 2.0, 0.0], vec![1.0, 1.0, 0.0]],
+    ];
+    let pool_y: Vec<Vec<bool>> = vec![vec![true, false], vec![true], vec![false, false, true], vec![false, true]];
+    // what the default generator of the crate (Xoshiro256Plus seeded with 42) would draw
+    let seeded: Vec<f64> = {
+        use linfa::ParamGuard;
+        use rand_xoshiro::rand_core::SeedableRng;
+        let p = linfa_ftrl::FtrlParams::<f64, _>::default_with_rng(rand_xoshiro::Xoshiro256Plus::seed_from_u64(42)).check().unwrap();
+        linfa_ftrl::Ftrl::new(p, 3).z().to_vec()
+    };
+    let z0s: Vec<Vec<f64>> = vec![vec![0.5, 0.0, 0.25], vec![0.75, 0.9375, 0.5], seeded];
+    let mut out = Vec::new();
+    for z0 in &z0s {
+        for alpha in [0.005, 0.5, 1.0] {
+            for beta in [0.0, 1.0] {
+                for l1 in [0.0, 0.5, 1.0] {
+                    for l2 in [0.0, 0.5, 1.0] {
+                        out.push(FtrlCase { pool_x: pool_x.clone(), pool_y: pool_y.clone(), alpha, beta, l1, l2, z0: z0.clone(), max_len, only_history: None });
+                    }
+                }
+            }
+        }
+    }
+    out
+}
+
+// ------------------------------------------------------------------------------------------------
+
+struct Agg {
+    bumps: Mutex<BTreeMap<&'static str, u64>>,
+    maxima: Mutex<BTreeMap<&'static str, f64>>,
+    notes: Mutex<BTreeMap<&'static str, (f64, Value)>>,
+    cases: AtomicU64,
+}
+
+fn flush(ctx: &Ctx, agg: &Agg, out: Out, ncases: u64) {
+    ctx.evals(out.evals, out.nontrivial);
+    ctx.add_states(out.states, out.transitions, out.traces);
+    for _ in 0..out.indeterminate {
+        ctx.indeterminate();
+    }
+    for _ in 0..out.out_of_domain {
+        ctx.out_of_domain();
+    }
+    ctx.violations(out.viols);
+    {
+        let mut b = agg.bumps.lock().unwrap();
+        for (k, v) in out.bumps {
+            *b.entry(k).or_insert(0) += v;
+        }
+    }
+    {
+        let mut m = agg.maxima.lock().unwrap();
+        for (k, v) in out.maxima {
+            let e = m.entry(k).or_insert(0.0);
+            if v > *e {
+                *e = v;
+            }
+        }
+    }
+    {
+        let mut m = agg.notes.lock().unwrap();
+        for (k, v) in out.notes {
+            // deterministic choice: larger score wins, ties by the smaller JSON text
+            let better = match m.get(k) {
+                None => true,
+                Some(old) => v.0 > old.0 || (v.0 == old.0 && v.1.to_string() < old.1.to_string()),
+            };
+            if better {
+                m.insert(k, v);
+            }
+        }
+    }
+    agg.cases.fetch_add(ncases, Ordering::Relaxed);
+}
+
+fn main() {
+    let ctx = Ctx::new("C15", Level::ModelChecking);
+    ctx.maybe_replay(&replay_value);
+    ctx.set_rule(
+        "explicit-state exploration of batch histories; one evaluation = one real fit_with call (one transition; k-means: one per tolerance; plus the fresh replays of every full-length k-means / FTRL history). \
+         Naive Bayes: datasets = every multiset of n rows over the symbols (feature vector in {0,1,2,3}^p, label in {0,1,2}) for p=1 (n<=5 quick / n<=6 thorough) and p=2 (n<=3 / n<=4), fed in 1 / 3 row orders \
+         (label-major, feature-major, riffle), x {gaussian var_smoothing 0, 1e-9, 1e-3; multinomial alpha 0, 0.5, 1}; per dataset EVERY composition of the rows into ordered non-empty batches \
+         (prefix-sharing state graph: state = (rows consumed, sufficient statistics), transition = fit_with on the next s rows for every s; states with bit-identical statistics are merged). \
+         k-means: 4 pools (2-d lattice, 2-d generic position, 1-d, 3-d) of 4 tiny batches, every batch sequence of length <= 3 / 4, k in {1,2,3}, precomputed initial centroids (incl. duplicated ones) / seeded k-means++ / seeded random, \
+         tolerances {1e-4, 1, 2, 100}. FTRL: pool of 4 batches (3 features), every sequence of length <= 3 / 4, alpha {0.005,0.5,1} x beta {0,1} x l1 {0,0.5,1} x l2 {0,0.5,1} x 3 initial z (two scripted, with |z| exactly on the l1 boundary, one as drawn by the crate's default generator). \
+         non-trivial = the transition updates a non-empty previous model (a genuinely incremental step) or is a step of a fresh full-history replay.",
+    );
+    ctx.assume("oracle NB: own textbook estimates from the consumed rows (class frequencies; per-class mean and population variance + var_smoothing x largest population variance of a feature over all consumed rows; summed counts and (count+alpha)/(total+alpha*p)); class_count exact, prior 1e-12, theta / feature_log_prob relative 1e-9 (+1e-12 absolute), multinomial feature_count bit-exact");
+    ctx.assume("Gaussian sigma of an INCREMENTAL model: textbook value up to 1e-9 relative + var_smoothing x (largest variance of any batch on the path or of all consumed rows): the subject's smoothing term is var_smoothing x largest variance of the CURRENT batch (DESIGN.md C15 open point), so only the unsmoothed part is pinned; sigma of a single fit is pinned to 1e-9 relative including the smoothing term");
+    ctx.assume("predictions (incremental model, single fit on the same rows) must equal the arg-max of the own reference posterior on a query lattice wherever the margin between the two best classes exceeds max(1e-6, 1e-9 x largest |log posterior|); smaller margins are counted as indeterminate");
+    ctx.assume("the incremental-vs-batch prediction comparison is ASSERTED for Gaussian var_smoothing <= 1e-9 and for the multinomial model; for var_smoothing = 1e-3 clear-margin label differences are only MEASURED (coverage key gnb_smoothing_1e-3_clear_margin_flips_measured); a panic of predict on an incrementally fitted model whose textbook variances are all positive is reported for every var_smoothing > 0");
+    ctx.assume("domain: predictions are compared only where the reference posterior is defined (every textbook smoothed variance > 0; every multinomial feature probability > 0); other states count as out_of_domain (their statistics are still compared)");
+    ctx.assume("non-finite statistics pass through the serde image as null: an observed non-finite value matches any expected non-finite value");
+    ctx.assume("oracle k-means: from the previous state of the subject (checked before), assign every batch row to the nearest previous centroid, then in row order count[c] += 1, c += (x - c)/count[c]; centroids 1e-12 (relative and absolute), counts exact; centroids equidistant within 1e-12 relative are a choice (every admissible combination accepted, at most 256 combinations, else indeterminate); Ok iff own shift sqrt(sum (c_new - c_old)^2) < tolerance, shifts within 1e-12 relative of the tolerance but not equal to it are indeterminate; inertia = mean squared distance of the batch rows to the nearest PREVIOUS centroid (1e-12)");
+    ctx.assume("seeded k-means initialisation is not part of the property: the observed first model must follow by the recurrence from SOME choice of k rows of the first batch as initial centroids (k distinct rows for random, any k rows for k-means++); a random initialisation from a first batch with fewer than k rows is out of domain");
+    ctx.assume("oracle FTRL: from the previous (z, n) of the subject: w = 0 if |z| <= l1 else (sign(z) l1 - z)/((sqrt(n)+beta)/alpha + l2); p_i = sigmoid(clamp(x_i.w, +-35)) rounded to f32; g = sum_i (p_i - y_i) x_i; sigma = (sqrt(n+g^2) - sqrt(n))/alpha; z' = z + g - sigma w; n' = n + g^2; tolerance 1e-6 x (1 + magnitude of the operands); get_weights() exactly 0 wherever |z| <= l1 (exact comparison on the subject's own z), else the closed form to 1e-12; states whose reference weights are not finite (beta = 0, l2 = 0, n = 0, |z| > l1) are out of domain");
+    ctx.assume("the initial z of FTRL is drawn by the subject from a generator supplied by the check that replays chosen dyadic values (rand 0.8 uniform f64 = (u64 >> 12) / 2^52); Ftrl::new is checked to produce exactly these values");
+    ctx.assume("VERIF_SEED does not influence what is explored");
+
+    let nb_p1_max = ctx.pick(5, 6);
+    let nb_p2_max = ctx.pick(3, 4);
+    let n_orders = ctx.pick(1, 3);
+    let seq_len = ctx.pick(3, 4);
+
+    // ---------------- naive Bayes ----------------
+    let mut items: Vec<NbItem> = Vec::new();
+    for n in 1..=nb_p1_max {
+        for ms in en::multisets(12, n, n) {
+            items.push(NbItem { p: 1, symbols: ms });
+        }
+    }
+    for n in 1..=nb_p2_max {
+        for ms in en::multisets(48, n, n) {
+            items.push(NbItem { p: 2, symbols: ms });
+        }
+    }
+    let nb_expected: u64 = items.iter().map(|it| nb_cases_of(it, n_orders).len() as u64).sum();
+    ctx.extra("nb_datasets_multisets", json!(items.len()));
+    ctx.extra("nb_cases_enumerated", json!(nb_expected));
+    let agg = Agg { bumps: Mutex::new(BTreeMap::new()), maxima: Mutex::new(BTreeMap::new()), notes: Mutex::new(BTreeMap::new()), cases: AtomicU64::new(0) };
+    let chunks: Vec<&[NbItem]> = items.chunks(32).collect();
+    par_sweep(&ctx, "naive bayes", &chunks, |chunk| {
+        let mut out = Out::default();
+        let mut n = 0u64;
+        for it in chunk.iter() {
+            for c in nb_cases_of(it, n_orders) {
+                nb::run_nb(&c, &mut out);
+                n += 1;
+                ctx.sample(|| json!({"family": "nb", "kind": c.kind, "x": c.x, "y": c.y, "smoothing": c.smoothing, "compositions": 1u64 << (c.x.len() - 1)}));
+            }
+        }
+        flush(&ctx, &agg, out, n);
+    });
+    let nb_done = agg.cases.swap(0, Ordering::Relaxed);
+    ctx.extra("nb_cases_completed", json!(nb_done));
+
+    // ---------------- k-means ----------------
+    let kc = km_cases(seq_len);
+    ctx.extra("kmeans_cases_enumerated", json!(kc.len()));
+    par_sweep(&ctx, "k-means", &kc, |c| {
+        let mut out = Out::default();
+        km::run_km(c, &mut out);
+        ctx.sample(|| json!({"family": "kmeans", "pool": c.pool_name, "k": c.k, "init": c.init, "init_centroids": c.init_centroids, "seed": c.seed, "tolerances": c.tolerances, "max_len": c.max_len}));
+        flush(&ctx, &agg, out, 1);
+    });
+    let km_done = agg.cases.swap(0, Ordering::Relaxed);
+    ctx.extra("kmeans_cases_completed", json!(km_done));
+
+    // ---------------- FTRL ----------------
+    let fc = ftrl_cases(seq_len);
+    ctx.extra("ftrl_cases_enumerated", json!(fc.len()));
+    par_sweep(&ctx, "ftrl", &fc, |c| {
+        let mut out = Out::default();
+        ftrl::run_ftrl(c, &mut out);
+        ctx.sample(|| json!({"family": "ftrl", "alpha": c.alpha, "beta": c.beta, "l1": c.l1, "l2": c.l2, "z0": c.z0, "max_len": c.max_len}));
+        flush(&ctx, &agg, out, 1);
+    });
+    let f_done = agg.cases.swap(0, Ordering::Relaxed);
+    ctx.extra("ftrl_cases_completed", json!(f_done));
+
+    if nb_done != nb_expected || km_done != kc.len() as u64 || f_done != fc.len() as u64 {
+        ctx.capped("not every enumerated case was completed (see *_cases_enumerated vs *_cases_completed)");
+    }
+    for (k, v) in agg.bumps.lock().unwrap().iter() {
+        ctx.extra(k, json!(v));
+    }
+    for (k, v) in agg.maxima.lock().unwrap().iter() {
+        ctx.extra(k, json!(v));
+    }
+    for (k, v) in agg.notes.lock().unwrap().iter() {
+        ctx.extra(k, v.1.clone());
+    }
+    {
+        let b = agg.bumps.lock().unwrap();
+        let exp = b.get("nb_compositions_expected").cloned().unwrap_or(0);
+        let got = b.get("nb_compositions_walked_to_the_end").cloned().unwrap_or(0);
+        if exp != got {
+            println!("MACHINERY-ERROR naive Bayes exploration walked {} compositions to the end, {} exist", got, exp);
+            std::process::exit(2);
+        }
+    }
+    ctx.finish(&replay_value);
+}
